@@ -120,6 +120,13 @@ func (q *qLogFile) seekTS(
 		return 0, 0, err
 	}
 
+	if fileInfo.Size() == 0 {
+		// There are no records in an empty file, so any timestamp is earlier
+		// than all of them.  Let the reader go on to the older file, if any,
+		// instead of failing with io.EOF from the probe below.
+		return 0, 0, errTSTooEarly
+	}
+
 	// Define the search scope.
 
 	// Start of the search interval (position in the file).
